@@ -14,7 +14,7 @@ REPO = "/repo"
 FILES = {
     "lexpr/src/parse/mod.rs": ["C08", "C13", "C19", "C10", "C11", "C05", "C01", "C06", "C12", "C17", "C02", "C03"],
     "lexpr/src/parse/read.rs": ["C08", "C13", "C19", "C17", "C06", "C11", "C10", "C01", "C12", "C02", "C03"],
-    "lexpr/src/parse/iter.rs": ["C12", "C10"],
+    "lexpr/src/parse/iter.rs": ["C11", "C19", "C12", "C10"],
     "lexpr/src/parse/error.rs": ["C19", "C06"],
     "lexpr/src/print.rs": ["C01", "C07", "C13", "C17", "C02"],
     "lexpr/src/cons.rs": ["C15", "C20", "C16"],
@@ -53,6 +53,8 @@ OPS = [
     ("drop-alt-last", re.compile(r" \| b'(\\.|[^'\\])'(?= =>| \))"), ""),
     ("drop-char-alt", re.compile(r"'(\\.|[^'\\])' \| "), ""),
     ("some->none", re.compile(r"=> Some\(([a-z_.*&]+)\),?$"), "=> None,"),
+    ("const+1", re.compile(r"(?<![\w.'])(\d{1,6})(?![\w.'])"), None),
+    ("hexconst+1", re.compile(r"\b0x([0-9A-Fa-f]{2,6})\b"), None),
 ]
 STMT_DELETE = re.compile(r"^\s*(self\.[a-z_.]+\([^;]*\);|[a-z_]+\.(clear|push|push_str|extend_from_slice|discard|truncate)\([^;]*\);)\s*$")
 
@@ -79,6 +81,12 @@ def sites(path):
                 # not inside a string literal (cheap test: even number of quotes before the match)
                 if code[: m.start()].count('"') % 2 == 1:
                     continue
+                if name == "const+1":
+                    if int(m.group(1)) < 2:
+                        continue
+                    rep = str(int(m.group(1)) + 1)
+                if name == "hexconst+1":
+                    rep = "0x%X" % (int(m.group(1), 16) + 1)
                 new = code[: m.start()] + rep + code[m.end():]
                 if name == "some->none":
                     new = code[: m.start()] + "=> None," + code[m.end():]
@@ -100,15 +108,19 @@ def make_diff(path, lines, i, new):
     return r.stdout
 
 
-def gen(outdir, per_file):
+def gen(outdir, per_file, salt="", exclude=None):
     os.makedirs(outdir, exist_ok=True)
     index = []
+    used = set()
+    if exclude:
+        for m in json.load(open(exclude)):
+            used.add((m["file"], m["line"] - 1))
     for path in FILES:
         lines, ss = sites(path)
         # deterministic spread: order by a hash, take per_file (scaled by file size)
         quota = max(4, int(per_file * min(3.0, len(lines) / 500.0)))
-        ss.sort(key=lambda s: hashlib.sha1(f"{path}:{s[0]}:{s[1]}".encode()).hexdigest())
-        seen_lines = set()
+        ss.sort(key=lambda s: hashlib.sha1(f"{salt}{path}:{s[0]}:{s[1]}".encode()).hexdigest())
+        seen_lines = set(i for (f, i) in used if f == path)
         chosen = []
         for s in ss:
             if s[0] in seen_lines:
@@ -234,7 +246,9 @@ if __name__ == "__main__":
     cmd, outdir = sys.argv[1], sys.argv[2]
     if cmd == "gen":
         n = int(sys.argv[sys.argv.index("--per-file") + 1]) if "--per-file" in sys.argv else 10
-        gen(outdir, n)
+        salt = sys.argv[sys.argv.index("--salt") + 1] if "--salt" in sys.argv else ""
+        excl = sys.argv[sys.argv.index("--exclude") + 1] if "--exclude" in sys.argv else None
+        gen(outdir, n, salt, excl)
     elif cmd == "suite":
         j = int(sys.argv[sys.argv.index("--jobs") + 1]) if "--jobs" in sys.argv else 3
         suite(outdir, j)
